@@ -288,6 +288,8 @@ def canaries():
 def parts(tier):
     if tier == 'quick':
         return [Part('history', make_harness(3, 5), bounds={'pool': 3, 'history_length': 5, 'ops': 'register/unregister/probe/tick(root)', 'settle_ticks': 10},
+                     encoded=ENC, budget_s=90),
+                Part('history-deep', make_harness(2, 8), bounds={'pool': 2, 'history_length': 8, 'ops': 'register/unregister/probe/tick(root)', 'settle_ticks': 10},
                      encoded=ENC, budget_s=90)]
     return [Part('history', make_harness(4, 6), bounds={'pool': 4, 'history_length': 6}, encoded=ENC, budget_s=1800),
             Part('history-long', make_harness(3, 7), bounds={'pool': 3, 'history_length': 7}, encoded=ENC, budget_s=1800)]
